@@ -22,6 +22,8 @@ def field_kinds(e):
     ent = NODE_TABLE.get(name)
     if ent is not None and ent[0] is type(e):
         return ent[1]
+    if name == "Rational" and not dataclasses.is_dataclass(e):
+        return [("numerator", K_EXPR), ("denominator", K_EXPR)]
     # user-defined dataclass node: classify by value
     if dataclasses.is_dataclass(e):
         out = []
